@@ -10,3 +10,13 @@ macro_rules! info { ($($t:tt)*) => {{}}; }
 macro_rules! warn { ($($t:tt)*) => {{}}; }
 #[macro_export]
 macro_rules! error { ($($t:tt)*) => {{}}; }
+/// spans are not modelled: `debug_span!` yields a unit value, `Instrument::instrument` is the identity
+#[macro_export]
+macro_rules! debug_span { ($($t:tt)*) => { $crate::Span }; }
+pub struct Span;
+pub trait Instrument: Sized {
+    fn instrument(self, _span: Span) -> Self {
+        self
+    }
+}
+impl<T: Sized> Instrument for T {}
